@@ -25,6 +25,10 @@ def arr(items):
 def groupings(rng, xs):
     """the same multiset as flat arguments, one array, nested arrays, a permutation, a random partition"""
     out = [list(xs), [arr(xs)]]
+    # one argument, nested three arrays deep, and four deep for longer lists
+    out.append([arr([xs[0], arr([arr(xs[1:])])])] if len(xs) >= 2 else [arr([arr([arr(xs)])])])
+    if len(xs) >= 3:
+        out.append([xs[0], arr([arr([xs[1], arr([arr(xs[2:])])])])])
     if len(xs) >= 2:
         out.append([xs[0], arr([xs[1], arr(xs[2:])])] if len(xs) > 2 else [xs[1], xs[0]])
         p = list(xs)
@@ -67,7 +71,7 @@ def rand_cases(rng):
         if rng.random() < 0.3:
             xs += [rng.choice(xs) for _ in range(rng.randint(1, 5))]
         for f in ('SUM', 'AVERAGE', 'MIN', 'MAX', 'COUNT', 'MEDIAN', 'MODE'):
-            for g in groupings(rng, xs)[rng.randrange(2):][:3]:
+            for g in groupings(rng, xs)[rng.randrange(2):][:4]:
                 out.append({'f': f, 'args': g})
         out.append({'f': 'LARGE', 'args': [arr(xs), enc(rng.randint(1, len(xs)))]})
     elif k <= 5:
@@ -169,7 +173,7 @@ def main(tier, replay=None):
     for li, xs in enumerate(lists):
         for f in (STATS[:11] if not quick else [STATS[(li + j) % 11] for j in range(3)]):
             gs = groupings(rng, xs)
-            for g in (gs if not quick else [gs[0], gs[-1]]):
+            for g in (gs if not quick else [gs[0], gs[2], gs[-1]]):
                 cases.append({'f': f, 'args': g})
         if not quick or rng.random() < 0.12:
             cases += crit_cases(rng, xs)
